@@ -7,4 +7,5 @@ CONSTANTS
   Hs = {1, 2, 3, 4}
   Qs = {2, 3, 4}
   MaxLen = 4
+  SrcMode = "abstract"
 INVARIANTS TypeOK SelfSupports SupportersSound OnePerMember DuplicatesDropped SubmitGate RefuseOnlyBelow AcceptedOnlyFiltered
